@@ -59,18 +59,21 @@ def requestURI (target : Bytes) : ReqURI :=
 def hexEscapeNonASCII (s : Bytes) : Bytes :=
   s.flatMap fun c => if c ≥ 0x80 then [37, hexDigitLower (c.toNat / 16), hexDigitLower (c.toNat % 16)] else [c]
 
-/-- The redirect handler: the Location it sends for the captured `redirPort`, the request's Host and RequestURI.
-(The status is the constant http.StatusMovedPermanently.) -/
-def redirLocation (redirPort hostHeader uri : Bytes) : Bytes :=
+/-- host[:port] of the redirect URL: the request's host without its port, IPv6 literals in brackets, and the captured
+`redirPort` if there is one -/
+def redirHostPort (redirPort hostHeader : Bytes) : Bytes :=
   let requestHost := match splitHostPort hostHeader with
     | some (h, _) => h
     | none =>                                  -- no port: the whole value, without the brackets of an IPv6 literal
       if hasPrefix hostHeader b!"[" && hasSuffix hostHeader b!"]" then (hostHeader.drop 1).dropLast else hostHeader
-  let hostport :=
-    if !redirPort.isEmpty then joinHostPort requestHost redirPort
-    else if hasByte requestHost 58 then b!"[" ++ requestHost ++ b!"]"
-    else requestHost
-  hexEscapeNonASCII (b!"https://" ++ hostport ++ uri)
+  if !redirPort.isEmpty then joinHostPort requestHost redirPort
+  else if hasByte requestHost 58 then b!"[" ++ requestHost ++ b!"]"
+  else requestHost
+
+/-- The redirect handler: the Location it sends for the captured `redirPort`, the request's Host and RequestURI.
+(The status is the constant http.StatusMovedPermanently.) -/
+def redirLocation (redirPort hostHeader uri : Bytes) : Bytes :=
+  hexEscapeNonASCII (b!"https://" ++ redirHostPort redirPort hostHeader ++ uri)
 
 def redirStatus : Nat := 301
 
